@@ -70,6 +70,8 @@ def skeleton(n, m, kind, rnd):
             else:
                 cols.append({j, j + 1})
         return [[i in cols[j] for j in range(m)] for i in range(n)]
+    if kind == 'almostfull':     # every column misses exactly one object: equal-size extents of n-1 objects
+        return [[i != j for j in range(m)] for i in range(n)]
     if kind == 'nested':         # nested extents of sizes 1, 2, 4, ...
         return [[i < min(n, 2 ** j) for j in range(m)] for i in range(n)]
     return [[rnd.random() < 0.6 for j in range(m)] for i in range(n)]
@@ -83,14 +85,15 @@ def skeleton_kernel_units(tier, seed):
 def skeleton_units(tier, seed, extra=None, wide=True):
     """concrete structured tables wider than a machine word (or with more than 8 rows), k cells symbolic"""
     if tier == 'quick':
-        specs = [(9, 3, 'interval', 4), (12, 2, 'nominal', 3), (66, 2, 'chain', 3), (2, 66, 'nominal', 3),
+        specs = [(9, 3, 'interval', 4), (12, 2, 'nominal', 3), (66, 3, 'straddle', 3), (3, 66, 'random', 3),
                  (5, 5, 'contranominal', 4), (6, 5, 'dupboth', 4), (7, 4, 'chain', 4), (6, 6, 'fullempty', 4),
                  (5, 6, 'random', 4), (8, 4, 'nested', 3), (10, 5, 'straddle', 3)]
     else:
         specs = [(5, 5, 'contranominal', 7), (6, 5, 'dupboth', 6), (7, 4, 'chain', 6), (6, 6, 'fullempty', 6),
                  (5, 6, 'random', 7), (8, 4, 'nested', 6), (6, 6, 'random', 6), (7, 5, 'dupboth', 6), (8, 5, 'random', 5),
                  (9, 3, 'interval', 6), (12, 2, 'nominal', 6), (10, 4, 'random', 6), (17, 3, 'dup', 5), (10, 5, 'straddle', 6),
-                 (18, 4, 'straddle', 5), (66, 4, 'straddle', 4), (4, 66, 'random', 4),
+                 (18, 4, 'straddle', 5), (66, 4, 'straddle', 4), (4, 66, 'random', 4), (260, 3, 'almostfull', 3),
+                 (4, 18, 'fullempty', 3),
                  (66, 2, 'chain', 6), (66, 2, 'nominal', 6), (2, 66, 'nominal', 6), (2, 66, 'chain', 6),
                  (70, 3, 'interval', 6), (3, 70, 'random', 5), (130, 2, 'dup', 5), (2, 130, 'interval', 5)]
     us = []
